@@ -9,6 +9,7 @@ from . import extract
 from .model import Facts
 
 VERIF = extract.VERIF
+OUT = os.environ.get("SSL_OUT", VERIF)   # evidence/replay root (redirected for mutant self-tests)
 
 
 class Violation:
@@ -65,7 +66,7 @@ class RuleResult:
 
 
 def load_known():
-    p = os.path.join(VERIF, "known_findings.tsv")
+    p = os.path.join(VERIF, "known_findings.txt")
     out = []
     if not os.path.exists(p):
         return out
@@ -73,11 +74,21 @@ def load_known():
         ln = ln.rstrip("\n")
         if not ln.strip() or ln.startswith("#"):
             continue
-        f = ln.split("\t")
-        if len(f) < 5:
+        parts = [x.strip() for x in ln.split(" | ")]
+        head = parts[0]
+        if ":" not in head:
             continue
-        out.append({"status": f[0], "property": f[1], "rule": f[2], "key": f[3], "what": f[4],
-                    "repro": f[5] if len(f) > 5 else ""})
+        status, rest = head.split(":", 1)
+        rest = rest.strip()
+        if not rest.startswith("property="):
+            continue
+        prop, _, what = rest.partition(" ")
+        e = {"status": status.strip(), "property": prop[len("property="):], "what": what.strip(), "rule": "", "key": "", "repro": ""}
+        for x in parts[1:]:
+            for f in ("rule", "key", "repro"):
+                if x.startswith(f + "="):
+                    e[f] = x[len(f) + 1:]
+        out.append(e)
     return out
 
 
@@ -135,8 +146,8 @@ def run_property(prop, rules, tier, seed, explanation, assumptions, trusted):
     if fatal:
         broken.append(("engine", fatal))
 
-    os.makedirs(os.path.join(VERIF, "replay"), exist_ok=True)
-    os.makedirs(os.path.join(VERIF, "evidence"), exist_ok=True)
+    os.makedirs(os.path.join(OUT, "replay"), exist_ok=True)
+    os.makedirs(os.path.join(OUT, "evidence"), exist_ok=True)
     seen_known = set()
     for v, k in suppressed:
         if (k["rule"], k["key"]) in seen_known:
@@ -146,14 +157,14 @@ def run_property(prop, rules, tier, seed, explanation, assumptions, trusted):
     n = 0
     for v in reported:
         n += 1
-        rp = os.path.join(VERIF, "replay", "%s-%d.txt" % (prop, n))
+        rp = os.path.join(OUT, "replay", "%s-%d.txt" % (prop, n))
         with open(rp, "w") as fh:
             fh.write("property %s, tier %s, tree %s\n%s\n" % (prop, tier, ctx._facts.tree_hash if ctx._facts else "?", v.text()))
         print(v.text())
         print("VIOLATION property=%s replay=%s" % (prop, rp))
     for rule, b in broken:
         n += 1
-        rp = os.path.join(VERIF, "replay", "%s-%d.txt" % (prop, n))
+        rp = os.path.join(OUT, "replay", "%s-%d.txt" % (prop, n))
         with open(rp, "w") as fh:
             fh.write("property %s: the check cannot decide (fail closed)\n[%s] %s\n" % (prop, rule, b))
         print("[%s] CHECK CANNOT DECIDE (fail closed): %s" % (rule, b))
@@ -209,7 +220,7 @@ def run_property(prop, rules, tier, seed, explanation, assumptions, trusted):
         "wall_s": round(time.time() - t0, 3),
         "violations": len(reported) + len(broken),
     }
-    with open(os.path.join(VERIF, "evidence", "%s.json" % prop), "w") as fh:
+    with open(os.path.join(OUT, "evidence", "%s.json" % prop), "w") as fh:
         json.dump(ev, fh, indent=1, sort_keys=True)
     print("%s [%s]: %d rule instances, %d distinct, %d violations, %d known findings, %d checker faults, %.1fs"
           % (prop, tier, len(instances), distinct, len(reported), len(seen_known), len(broken), time.time() - t0))
